@@ -317,7 +317,12 @@ fn children(o: &Outcome, prefix_len: usize, cost: u32, bound: Option<u32>, out: 
     out.extend(l.iter().map(|x| x.materialize()));
 }
 
-fn explore_job(r: &dyn Runnable, job: Job, bound: Option<u32>, stats: &mut Stats, deadline: Instant, shared: &Shared) {
+/// Abandoned (violating) executions leave parked threads behind; a worker that has collected this
+/// many hands its remaining work back and exits so that a fresh process continues.
+const RECYCLE_AFTER: u64 = 60;
+
+/// Returns the jobs to requeue when the worker must be recycled.
+fn explore_job(r: &dyn Runnable, job: Job, bound: Option<u32>, stats: &mut Stats, deadline: Instant, shared: &Shared, abandoned: &mut u64) -> Option<Vec<Job>> {
     let mut stack: Vec<Lazy> = Vec::new();
     let mut next: Option<Job> = Some(job);
     loop {
@@ -325,17 +330,32 @@ fn explore_job(r: &dyn Runnable, job: Job, bound: Option<u32>, stats: &mut Stats
             Some(j) => j,
             None => match stack.pop() {
                 Some(l) => l.materialize(),
-                None => return,
+                None => return None,
             },
         };
         if Instant::now() > deadline || shared.stop.load(Ordering::Relaxed) != 0 {
             stats.capped = true;
             stats.unexplored_jobs += 1 + stack.len() as u64;
-            return;
+            return None;
         }
         let out = r.run(&p, false);
         stats.add(&out, p.len());
         children_lazy(&out, p.len(), c, bound, &mut stack);
+        if out.violation.is_some() {
+            *abandoned += 1;
+            if *abandoned >= RECYCLE_AFTER {
+                let mut back: Vec<Job> = Vec::new();
+                if stack.len() > 50_000 {
+                    stats.capped = true;
+                    stats.unexplored_jobs += (stack.len() - 50_000) as u64;
+                    stack.drain(..stack.len() - 50_000);
+                }
+                for l in stack.iter().rev() {
+                    back.push(l.materialize());
+                }
+                return Some(back);
+            }
+        }
     }
 }
 
@@ -460,8 +480,8 @@ fn prepare_child(cfg: &Config, scenario: &str, pipe_fd: i32, shared: &'static Sh
     sched::PROGRESS.store(&shared.progress[slot] as *const Progress as usize, Ordering::SeqCst);
     // A panic in engine code on the controller is a machinery failure.
     std::panic::set_hook(Box::new(|info| {
-        if sched::tid() == 0 || sched::tid() == sched::NONE {
-            eprintln!("ENGINE PANIC: {}", info);
+        if std::env::var("VERIF_DEBUG_PANICS").is_ok() {
+            eprintln!("panic (thread {}): {}", sched::tid(), info);
         }
     }));
 }
@@ -528,7 +548,8 @@ pub fn explore(r: &dyn Runnable, cfg: &Config) -> Result<Summary, String> {
         let mut queue: std::collections::VecDeque<Job> = std::collections::VecDeque::new();
         queue.push_back((vec![], 0));
         let mut samples: Vec<Value> = Vec::new();
-        while queue.len() < target_jobs {
+        let mut abandoned_exp = 0u64;
+        while queue.len() < target_jobs && abandoned_exp < RECYCLE_AFTER {
             let (p, c) = match queue.pop_front() {
                 Some(j) => j,
                 None => break,
@@ -538,6 +559,9 @@ pub fn explore(r: &dyn Runnable, cfg: &Config) -> Result<Summary, String> {
             st.add(&out, p.len());
             if keep {
                 samples.push(sample_json(&p, &out));
+            }
+            if out.violation.is_some() {
+                abandoned_exp += 1;
             }
             let mut ch = Vec::new();
             children(&out, p.len(), c, bound, &mut ch);
@@ -572,7 +596,7 @@ pub fn explore(r: &dyn Runnable, cfg: &Config) -> Result<Summary, String> {
     if !jobs.is_empty() {
         shared.next_job.store(0, Ordering::SeqCst);
         let mut rounds = 0;
-        while (shared.next_job.load(Ordering::SeqCst) as usize) < jobs.len() && rounds < 40 {
+        while (shared.next_job.load(Ordering::SeqCst) as usize) < jobs.len() && rounds < 400 {
             rounds += 1;
             let mut kids = Vec::new();
             let remaining = jobs.len() - shared.next_job.load(Ordering::SeqCst) as usize;
@@ -580,27 +604,46 @@ pub fn explore(r: &dyn Runnable, cfg: &Config) -> Result<Summary, String> {
                 let jobs_ref = &jobs;
                 let (pid, fd) = fork_child(|pfd| {
                     prepare_child(cfg, &name, pfd, shared, w + 1);
+                    let mut abandoned = 0u64;
                     loop {
                         let i = shared.next_job.fetch_add(1, Ordering::SeqCst) as usize;
                         if i >= jobs_ref.len() {
                             break;
                         }
                         let mut st = Stats::default();
-                        explore_job(r, jobs_ref[i].clone(), bound, &mut st, deadline, shared);
+                        let back = explore_job(r, jobs_ref[i].clone(), bound, &mut st, deadline, shared, &mut abandoned);
                         finalize_violations(&mut st);
                         let line = json!({"stats": st.to_json()}).to_string() + "\n";
                         write_fd(pfd, &line);
+                        if let Some(b) = back {
+                            let jobs: Vec<Value> = b.iter().map(|(p, c)| json!([p, c])).collect();
+                            let line = json!({"extra": {"requeue": jobs}}).to_string() + "\n";
+                            write_fd(pfd, &line);
+                            break;
+                        }
                     }
                 });
                 kids.push((pid, fd, w + 1));
             }
+            let round_len = jobs.len() as u64;
             let res = supervise(&kids, shared, cfg.hang_secs);
+            if shared.next_job.load(Ordering::SeqCst) > round_len {
+                shared.next_job.store(round_len, Ordering::SeqCst);
+            }
             let before = violations.len();
             interpret(res, cfg, &name, &mut stats, &mut violations, &mut extra)?;
             if violations.len() > before {
                 // a worker died mid-job: that job's subtree is not completely explored
                 stats.capped = true;
                 stats.unexplored_jobs += (violations.len() - before) as u64;
+            }
+            for x in extra.drain(..) {
+                if let Some(a) = x["requeue"].as_array() {
+                    for j in a {
+                        let p: Vec<u32> = j[0].as_array().unwrap().iter().map(|v| v.as_u64().unwrap() as u32).collect();
+                        jobs.push((p, j[1].as_u64().unwrap() as u32));
+                    }
+                }
             }
         }
     }
